@@ -43,9 +43,28 @@ type handlerWithLogs struct {
 	counterMutex       sync.Mutex
 	counter            map[string]int
 
+	// Written by the main loop when the participant joins a session, read by
+	// the sender, receiver and summary goroutines.
+	sessionMutex  sync.RWMutex
 	sessionID     string
 	sessionUUID   string
 	participantID uint32
+}
+
+func (h *handlerWithLogs) setSession(sessionID, sessionUUID string, participantID uint32) {
+	h.sessionMutex.Lock()
+	defer h.sessionMutex.Unlock()
+
+	h.sessionID = sessionID
+	h.sessionUUID = sessionUUID
+	h.participantID = participantID
+}
+
+func (h *handlerWithLogs) session() (sessionID, sessionUUID string, participantID uint32) {
+	h.sessionMutex.RLock()
+	defer h.sessionMutex.RUnlock()
+
+	return h.sessionID, h.sessionUUID, h.participantID
 }
 
 func (h *handlerWithLogs) HandleConnect(conn *websocket.Conn) {
@@ -90,15 +109,16 @@ func (h *handlerWithLogs) HandleParticipantJoin(ctx context.Context, handleFrame
 		return nil
 	}
 
-	h.sessionID = h.GetSessions().GlobalSessionID(h.CurrentSession().ID)
-	h.sessionUUID = h.CurrentSession().SessionUUID
-	h.participantID = h.CurrentParticipant().ID
+	sessionID := h.GetSessions().GlobalSessionID(h.CurrentSession().ID)
+	sessionUUID := h.CurrentSession().SessionUUID
+	participantID := h.CurrentParticipant().ID
+	h.setSession(sessionID, sessionUUID, participantID)
 
 	logs.WithClientID(h.GetClientID()).
 		WithTag(logs.AppKeyTag, h.appKey).
-		WithTag(logs.SessionIDTag, h.sessionID).
-		WithTag("session_uuid", h.sessionUUID).
-		WithTag(logs.ParticipantIDTag, h.participantID).
+		WithTag(logs.SessionIDTag, sessionID).
+		WithTag("session_uuid", sessionUUID).
+		WithTag(logs.ParticipantIDTag, participantID).
 		WithTag("http_headers", struct {
 			UserAgent               string `json:"user_agent,omitempty"`
 			XForwardedFor           string `json:"x_forwarded_for,omitempty"`
@@ -116,10 +136,11 @@ func (h *handlerWithLogs) HandleParticipantJoin(ctx context.Context, handleFrame
 
 func (h *handlerWithLogs) HandleDisconnect(err error) {
 	h.Handler.HandleDisconnect(err)
+	sessionID, _, participantID := h.session()
 	logs.WithClientID(h.GetClientID()).
 		WithTag(logs.AppKeyTag, h.appKey).
-		WithTag(logs.SessionIDTag, h.sessionID).
-		WithTag(logs.ParticipantIDTag, h.participantID).
+		WithTag(logs.SessionIDTag, sessionID).
+		WithTag(logs.ParticipantIDTag, participantID).
 		Info("client disconnected")
 }
 
@@ -128,19 +149,20 @@ func (h *handlerWithLogs) Receiver() hwebsocket.Receiver {
 
 	return func() (hwebsocket.Msg, int, error) {
 		msg, n, err := receive()
+		sessionID, sessionUUID, participantID := h.session()
 		if err != nil && !errors.Is(err, io.EOF) && !errors.Is(err, net.ErrClosed) {
 			logs.WithClientID(h.GetClientID()).
 				WithTag(logs.AppKeyTag, h.appKey).
-				WithTag(logs.SessionIDTag, h.sessionID).
-				WithTag("session_uuid", h.sessionUUID).
-				WithTag(logs.ParticipantIDTag, h.participantID).
+				WithTag(logs.SessionIDTag, sessionID).
+				WithTag("session_uuid", sessionUUID).
+				WithTag(logs.ParticipantIDTag, participantID).
 				Error(errors.New("receiving message failed").Wrap(err))
 		} else if err == nil {
 			logs.WithClientID(h.GetClientID()).
 				WithTag(logs.AppKeyTag, h.appKey).
-				WithTag(logs.SessionIDTag, h.sessionID).
-				WithTag("session_uuid", h.sessionUUID).
-				WithTag(logs.ParticipantIDTag, h.participantID).
+				WithTag(logs.SessionIDTag, sessionID).
+				WithTag("session_uuid", sessionUUID).
+				WithTag(logs.ParticipantIDTag, participantID).
 				WithTag("msg_type", msg.TypeString()).
 				Debug("message received")
 			h.incCounter(msg.TypeString())
@@ -157,20 +179,21 @@ func (h *handlerWithLogs) Sender() hwebsocket.Sender {
 		msgType := msg.TypeString()
 
 		n, err := sender(msg)
+		sessionID, sessionUUID, participantID := h.session()
 		if err != nil && !errors.Is(err, net.ErrClosed) {
 			logs.WithClientID(h.GetClientID()).
 				WithTag(logs.AppKeyTag, h.appKey).
-				WithTag(logs.SessionIDTag, h.sessionID).
-				WithTag("session_uuid", h.sessionUUID).
-				WithTag(logs.ParticipantIDTag, h.participantID).
+				WithTag(logs.SessionIDTag, sessionID).
+				WithTag("session_uuid", sessionUUID).
+				WithTag(logs.ParticipantIDTag, participantID).
 				WithTag("msg_type", msgType).
 				Error(errors.New("sending message failed").Wrap(err))
 		} else if err == nil {
 			logs.WithClientID(h.GetClientID()).
 				WithTag(logs.AppKeyTag, h.appKey).
-				WithTag(logs.SessionIDTag, h.sessionID).
-				WithTag("session_uuid", h.sessionUUID).
-				WithTag(logs.ParticipantIDTag, h.participantID).
+				WithTag(logs.SessionIDTag, sessionID).
+				WithTag("session_uuid", sessionUUID).
+				WithTag(logs.ParticipantIDTag, participantID).
 				WithTag("msg_type", msgType).
 				Debug("message sent")
 		}
@@ -213,13 +236,14 @@ func (h *handlerWithLogs) logSummary() {
 	if len(h.counter) == 0 {
 		return
 	}
+	sessionID, sessionUUID, participantID := h.session()
 
 	entry := logs.
 		WithClientID(h.GetClientID()).
 		WithTag(logs.AppKeyTag, h.appKey).
-		WithTag(logs.ParticipantIDTag, h.participantID).
-		WithTag(logs.SessionIDTag, h.sessionID).
-		WithTag("session_uuid", h.sessionUUID).
+		WithTag(logs.ParticipantIDTag, participantID).
+		WithTag(logs.SessionIDTag, sessionID).
+		WithTag("session_uuid", sessionUUID).
 		WithTag("time_interval", h.summaryInterval)
 
 	for k, v := range h.counter {
